@@ -185,7 +185,7 @@ Lemma ps_record_documented ptr isz s b : ps_documented (ps_record ptr isz s b).
 Proof.
   destruct s as [st l]. unfold ps_record.
   destruct (parse_dr b) as [r|]; [|cbn; discriminate].
-  destruct (ps_outside (sysuse r)); [cbn; lia|].
+  destruct (ps_outside (sysuse r) (znth 32 b)); [cbn; lia|].
   assert (Ht : forall cur child, ps_documented (ps_track cur child l)).
   { intros cur child. unfold ps_track. cbv zeta.
     match goal with |- ps_documented (if ?d then _ else _) => destruct d end; [|exact I].
